@@ -13,24 +13,24 @@ PY = "/venv/bin/python"
 TECH = {
     "C01": "handler-table resolution + path-sensitive abstract interpretation of the simplifier handlers on operand classes with symbolic constants (rewrite-rule extraction decided against independent reference semantics over small domains), who-may-call",
     "C02": "abstract interpretation of EagerModel / Model.satisfies with models of symbolic constants, decided against the reference semantics",
-    "C03": "who-may-call + CFG dominance on create_node; abstract interpretation of the typing rules per operator and operand-sort triple vs a reference signature function",
-    "C04": "who-may-write over the package, CFG pairing on create_node, constructor/accessor payload-layout agreement by interpretation, class-level container rule",
+    "C03": "abstract interpretation of the real FormulaManager (create_node, table, FNode, construction-time type check - nothing modelled) on every constructor x operand-sort combination vs a reference signature function; who-may-allocate over the call-graph region of create_node; exhaustive dispatch",
+    "C04": "abstract interpretation of the real FormulaManager: identity of repeated requests, distinctness of different structures, impostor cache keys; constructor/accessor agreement and rebuild identity by interpretation; who-may-write over the call-graph region; class-level container rule",
     "C05": "abstract interpretation of both substituters on (skeleton, map) pairs vs an independent reference replacement and the substitution lemma; exhaustive dispatch; instance-reuse probe",
     "C06": "abstract interpretation (symbolic expansion) of derived constructors / infix forms / named methods vs the function the name denotes",
     "C07": "abstract interpretation of the whole export path on concrete skeletons; the written text is read by an independent SMT-LIB reader/evaluator (well-formedness + denotation); exhaustive dispatch",
-    "C08": "abstract interpretation of the parser (tokeniser to constructors, type check included) on a script corpus vs the independent reader; token-table rule; reset completeness",
-    "C09": "composition by interpretation: printer then parser (SMT-LIB tree / let-DAG, human-readable), script re-serialisation; command-table rule",
+    "C08": "abstract interpretation of the parser (tokeniser to constructors, type check included) on a script corpus, on generated applications of every operator token and on one script per command, vs the independent reader; parser-object reuse",
+    "C09": "composition by interpretation: printer then parser (SMT-LIB tree / let-DAG, human-readable), script re-serialisation in both forms, per-command round trip",
     "C10": "abstract interpretation of each rewriter on operator skeletons; equivalence by complete truth table and shape predicate",
-    "C11": "abstract interpretation of CNF converters and Ackermannizer; model-by-model equisatisfiability by truth table / function tables; exhaustive dispatch",
-    "C12": "exhaustive dispatch; abstract interpretation of the five oracles per operator skeleton vs structural reference definitions; payload-sort cross-check",
-    "C13": "abstract interpretation of TheoryOracle on skeletons vs independently computed feature sets; relational normal form of the logic tables and selection comprehensions",
-    "C14": "memo-key completeness / one-shot construction sites; effectful-handler and accumulator-reset rules; interpretation of cached Theory freshness; value-keyed cache validation",
-    "C15": "abstract interpretation of the DagWalker protocol with a failure injected at every handler call (state equivalence with a fresh walker); register-after-check ordering on the CFG of create_node; parser reset-before-parse",
+    "C11": "abstract interpretation of CNF converters and Ackermannizer (fresh and reused instance); model-by-model equisatisfiability by truth table / function tables; exhaustive dispatch",
+    "C12": "abstract interpretation of the five oracles per operator skeleton vs structural reference definitions; exhaustive dispatch",
+    "C13": "abstract interpretation of TheoryOracle, get_logic and the exported set-logic on skeletons vs independently computed feature sets; the module's logic tables obtained by interpreting its top level, order axioms and selection functions interpreted on all pairs / triples",
+    "C14": "abstract interpretation of environment services after a history vs a fresh environment; cached Theory freshness; impostor cache keys on the real manager; memo-key completeness / one-shot construction sites; effectful-handler and accumulator-reset rules",
+    "C15": "abstract interpretation with failures injected: at every handler call of every walker, at construction on the real manager (tables and counters compared), in scripts read before a later script",
     "C16": "abstract interpretation of script replay and of the incremental-solver base classes (with the real decorator) over all bounded API sequences vs a reference assertion-stack model; decorator discipline over all solver classes",
     "C17": "abstract interpretation of the text-interface solver against an analysis-side reference solver process over all bounded API sequences; verdict table incl. end-of-file",
-    "C18": "push/pop bracket: CFG must-pass-through per open call incl. exceptional exits; comparator table vs reference; 'no solution' rule",
+    "C18": "abstract interpretation of both optimiser mixins over a brute-force back-end: optimum, model, no-solution, and assertion stack / back-end stack restored on the path taken",
     "C19": "abstract interpretation of Portfolio under an environment model in which the race is an enumerated schedule (arrival orders, time-outs, failing / dying members, repeated solves)",
-    "C20": "self-recursion detection over the formula core; abstract interpretation of the traversal on maximally shared DAGs (handler calls and traversal steps grow with nodes, not paths); re-entrancy rule",
+    "C20": "interpreted call depth of every FNode method on operator towers of two depths; traversal interpreted on maximally shared DAGs (handler calls and steps grow with nodes, not paths); construction cost on the real manager; resolved self-recursion; re-entrancy rule",
 }
 
 NA = []   # every property has at least one clause decided statically (see DESIGN.md section 9)
